@@ -190,7 +190,7 @@ func isNoopPkg(p string) bool {
 func isDeniedPkg(p string) bool {
 	switch p {
 	case "runtime", "sync", "sync/atomic", "reflect", "unsafe", "encoding/json", "net", "net/http", "os", "syscall", "time",
-		"github.com/gorilla/websocket", "math/rand", "fmt", "net/url", "github.com/google/uuid", "net/http/httptest", "bufio",
+		"github.com/gorilla/websocket", "math/rand", "fmt", "net/url", "github.com/google/uuid", "net/http/httptest",
 		"encoding/base64", "testing", "internal/reflectlite", "unicode", "golang.org/x/xerrors", "context", "bytes", "io/ioutil", "math", "strconv", "sort":
 		return true
 	}
